@@ -30,6 +30,7 @@ ASSUMPTIONS = ['"cleared caches" stands for "fresh process" inside a history; th
                'processes to validate that assumption',
                'the reference subprocesses run with socket.socket / create_connection / getaddrinfo patched to raise, so any network use would '
                'show as a different outcome']
+RULE = RULE + '; every call of the universe must end in a documented outcome (True, False, ValidationError, SchemaError) in the fresh process'
 
 VALIDATORS = ['Draft3Validator', 'Draft4Validator', 'Draft7Validator']
 
